@@ -71,7 +71,9 @@ class C02(Check):
         "2-point pump curves were fitted with a parabola formula (fix: fixes/C02-two-point-pump-curve.patch; gen_fit2_is_model fails "
         "without it). That the row in the model at solve time is the one for the REPORTED status (results are saved only after a "
         "post-solve pass without changes; the updater rebuilds rows on status changes) is checked by the simulation oracle, not proved. "
-        "q2**1.852 in the piecewise joint is the double the code computes (libm pow trusted).",
+        "q2**1.852 in the piecewise joint is the double the code computes (libm pow trusted). Outside the model because WNTRSimulator REFUSES them "
+        "(NotImplementedError before anything is reported; re-checked on every run, evidence keys refused:*): GPV, PBV, Darcy-Weisbach and Chezy-Manning "
+        "head loss, pump speeds / speed patterns other than 1.0. Emitter coefficients are silently ignored by WNTRSimulator (no emitter flow; not a C02 matter).",
         technique="Lean 4 proof over translator-regenerated constraint rows and constants + differential runs (residuals, status conditions, "
         "spline coefficients) + documented-law oracle on real simulations",
     )
@@ -355,6 +357,58 @@ class C02(Check):
         batch.run()
         return broken
 
+    # ------------------------------------------------------------------ (b3) what the simulator refuses (outside the model)
+    def _refusals(self, ctx, wntr):
+        """GPV, PBV, D-W / C-M head loss and pump speeds != 1 are REFUSED by WNTRSimulator (NotImplementedError before anything is
+        reported), so the statement is vacuous for them; if one of them starts to be simulated the model has no law for it."""
+        def base():
+            wn = wntr.network.WaterNetworkModel()
+            wn.add_reservoir("R", base_head=50.0)
+            wn.add_junction("A", base_demand=0.002, elevation=5.0)
+            wn.add_junction("B", base_demand=0.002, elevation=5.0)
+            wn.add_pipe("P1", "R", "A")
+            wn.options.time.duration = 3600
+            return wn
+
+        def gpv(wn):
+            wn.add_curve("g", "HEADLOSS", [(0.0, 0.0), (0.01, 5.0)])
+            wn.add_valve("V", "A", "B", 0.2, "GPV", 0.0, "g")
+
+        def pbv(wn):
+            wn.add_valve("V", "A", "B", 0.2, "PBV", 0.0, 5.0)
+
+        def dw(wn):
+            wn.add_pipe("P2", "A", "B")
+            wn.options.hydraulic.headloss = "D-W"
+
+        def cm(wn):
+            wn.add_pipe("P2", "A", "B")
+            wn.options.hydraulic.headloss = "C-M"
+
+        def speed(wn):
+            wn.add_curve("c", "HEAD", [(0.05, 30.0)])
+            wn.add_pump("PU", "A", "B", "HEAD", "c", speed=0.8)
+
+        def speedpat(wn):
+            wn.add_curve("c", "HEAD", [(0.05, 30.0)])
+            wn.add_pattern("sp", [1.0, 0.7])
+            wn.add_pump("PU", "A", "B", "HEAD", "c", speed=1.0, pattern="sp")
+
+        broken = []
+        for name, f in (("GPV", gpv), ("PBV", pbv), ("D-W", dw), ("C-M", cm), ("pump_speed", speed), ("pump_speed_pattern", speedpat)):
+            wn = base()
+            try:
+                f(wn)
+                wntr.sim.WNTRSimulator(wn).run_sim()
+                ctx.count("simulated_without_a_model:" + name)
+                broken.append(Broken("correspondence", "unsupported feature is simulated", "%s is no longer refused by WNTRSimulator; Model/LinkRows.lean has no row for it" % name))
+            except NotImplementedError:
+                ctx.count("refused:" + name)
+            except Exception as e:
+                ctx.count("refused_other:%s:%s" % (name, type(e).__name__))
+            ctx.case(("refusal", name), nontrivial=False)
+        return broken
+
     # ------------------------------------------------------------------ (c) pump smoothing coefficients
     def _smoothing(self, ctx, wntr):
         from wntr.sim.models import constraint
@@ -507,6 +561,7 @@ class C02(Check):
         broken += self._conditions(ctx, wntr)
         broken += self._smoothing(ctx, wntr)
         broken += self._tracker(ctx, wntr)
+        broken += self._refusals(ctx, wntr)
         corpus = [c["spec"] for _, c in vlib.corpus_items(self.pid) if "spec" in c]
         specs = corpus + C.gen_specs(ctx, 30 if ctx.quick else 400, 22 if ctx.quick else 132)
         f, b = self._static_rows(ctx, wntr, specs[: (26 if ctx.quick else 250)])
